@@ -399,15 +399,22 @@ class StreamSim(PeerSim):
             raise Violation("decode-raised", f"C10/decode-raised/{name}",
                             f"Codec.decode(silent=True) raised {name} on {head[:60]!r} (faults: {kinds})")
         sent = {s["frame"] for s in self.peer.sent}
+        deferred = None
         for (ev, kind, consumed, buflen, raw) in self.decodes:
             if kind != "msg":
                 continue
             why = refframer.consistency(raw)
             if why is not None:
                 nul = "/nul-inserted" if b"\x00" in raw else ""
-                raise Violation("inconsistent-frame-accepted", f"C10/inconsistent-frame-accepted/{why}{nul}",
-                                f"decoder returned a message whose {why} is not consistent with its bytes "
-                                f"(faults: {kinds}): {raw[:90]!r}")
+                v = Violation("inconsistent-frame-accepted", f"C10/inconsistent-frame-accepted/{why}{nul}",
+                              f"decoder returned a message whose {why} is not consistent with its bytes "
+                              f"(faults: {kinds}): {raw[:90]!r}")
+                if why != "bodylength":
+                    raise v
+                # BodyLength is a listed known finding (pinned by the repo's own tests): judged
+                # last so that it masks no other clause of the same run
+                if deferred is None:
+                    deferred = v
             if raw not in sent:
                 self.probe("accepted_consistent_frame_never_sent_as_such")
         dead = self.dead_tasks()
@@ -426,6 +433,8 @@ class StreamSim(PeerSim):
                     and self.eut.connection_state > ConnectionState.DISCONNECTED_BROKEN_CONN:
                 raise Violation("blocked", f"C10/final-frame-blocked/faults={kinds}",
                                 "a valid frame sent after everything else was never decoded")
+        if deferred is not None:
+            raise deferred
 
     def teardown(self):
         super().teardown()
